@@ -21,7 +21,7 @@ fn pick<T>(v: &[T], b: u8) -> Option<usize> {
 fn handle_of(op: &mut ClientOp) -> Option<&mut u16> {
     use ClientOp::*;
     match op {
-        Send { h, .. } | Call { h, .. } | CallDrop { h, .. } | SendRepoll { h, .. } | SendDrop { h, .. } | JoinStash { h } | JoinDiscard { h } | JoinLazyDetach { h } | RegisterHeld { h } | Ping { h } | Stop { h } | Halt { h } | TryStop { h } | TryHalt { h } | Restart { h } | AwaitClone { h }
+        Send { h, .. } | Call { h, .. } | CallDrop { h, .. } | SendRepoll { h, .. } | SendDrop { h, .. } | JoinStash { h } | JoinDiscard { h } | JoinLazyDetach { h } | JoinPollDrop { h } | RegisterHeld { h } | Ping { h } | Stop { h } | Halt { h } | TryStop { h } | TryHalt { h } | Restart { h } | AwaitClone { h }
         | Join { h } | Consume { h } | ConsumeSync { h } | Detach { h } | Clone { h } | Downgrade { h } | Upgrade { h } | ToSender { h }
         | ToCaller { h } | ToWeakSender { h } | ToWeakCaller { h } | ToAddr { h } | Drop { h } | Give { h, .. } | QueryStopped { h }
         | QueryRunning { h } | SubscribeFor { h, .. } | UnsubscribeFor { h, .. } => Some(h),
